@@ -26,6 +26,16 @@ HOOKS = ("For", "While", "FunctionDef", "Break", "Continue", "Return", "Yield", 
 BEHAVIOR_ARG = "_Scenic_current_behavior"
 
 
+def _lit(x):
+    """counter-model inputs that are lists arrive as their repr"""
+    if isinstance(x, str) and x[:1] in "[({":
+        try:
+            return ast.literal_eval(x)
+        except (ValueError, SyntaxError):
+            return x
+    return x
+
+
 def _exc_name(exc):
     return exc.cls.name if isinstance(exc.cls, ClassVal) else getattr(exc.cls, "__name__", str(exc.cls))
 
@@ -93,7 +103,7 @@ def replay_name(inputs, clause):
     from standins.python_corpus import first_difference
 
     id_, ctx = inputs.get("id"), inputs.get("ctx")
-    if id_ is None or inputs.get("behaviorLocals"):
+    if id_ is None or _lit(inputs.get("behaviorLocals")):
         return None
     src = {"Load": f"y = {id_}\n", "Store": f"{id_} = 1\n", "Del": f"del {id_}\n"}[ctx]
     from scenic.core.errors import ScenicSyntaxError
